@@ -10,7 +10,7 @@ use crate::irb::*;
 use crate::irinterp::{run_sub, CallAction, Limits, Observer, State, Stop};
 use crate::refsem as rs;
 use crate::tape::{fnv, Tape};
-use cwe_checker_lib::abstract_domain::{AbstractIdentifier, AbstractLocation, AbstractMemoryLocation, DataDomain, IntervalDomain};
+use cwe_checker_lib::abstract_domain::{AbstractDomain, AbstractIdentifier, AbstractLocation, AbstractMemoryLocation, DataDomain, IntervalDomain};
 use cwe_checker_lib::analysis::graph::Node;
 use cwe_checker_lib::analysis::vsa_results::VsaResult;
 use cwe_checker_lib::intermediate_representation::*;
@@ -487,6 +487,7 @@ pub fn decode(t: &mut Tape) -> Case {
                 4 => e_stk.clone(),
                 _ => sub_tid(gbase),
             };
+            let indirect = g.t.prob(40);
             if target == e_stk {
                 // the stack argument: written by the caller just below the return address slot
                 let c = g.small();
@@ -517,7 +518,14 @@ pub fn decode(t: &mut Tape) -> Case {
             // x86 CALL: push the return address
             blocks[bi].term.defs.push(assign(instr_tid(bb + 0x3d, 0), &var("RSP", 8), ebin(IntSub, evar(&var("RSP", 8)), econst(8, 8))));
             blocks[bi].term.defs.push(store(instr_tid(bb + 0x3d, 1), evar(&var("RSP", 8)), econst((bb + 0x40) as i128, 8)));
-            blocks[bi].term.jmps = vec![jmp(instr_tid(bb + 0x3f, 0), Jmp::Call { target, return_: Some(blk_tid(bb + 0x40)) })];
+            blocks[bi].term.jmps = if indirect {
+                // call through a register (function pointer): a value loaded from memory, a parameter, anything
+                g.feat("indirect-call");
+                let r = g.reg();
+                vec![jmp(instr_tid(bb + 0x3f, 0), Jmp::CallInd { target: evar(&r), return_: Some(blk_tid(bb + 0x40)) })]
+            } else {
+                vec![jmp(instr_tid(bb + 0x3f, 0), Jmp::Call { target, return_: Some(blk_tid(bb + 0x40)) })]
+            };
         }
     }
     let s = sub(sub_tid(sbase), "f", blocks);
@@ -667,6 +675,10 @@ struct Obs<'a, 'b> {
     extern_writes: u64,
     checks_after_call: u64,
     after_call: bool,
+    /// the last executed jump was an indirect call
+    after_callind: bool,
+    /// whether the analysis had a non-Top value for the target of the last indirect call
+    last_callind_nontop: Option<bool>,
     /// an internal callee accessed the same byte through two different bases (two parameters that point into
     /// the same caller object, a parameter and its own stack pointer, ...): the analysis' assumption that
     /// different parameter identifiers denote different memory does not hold from then on
@@ -792,10 +804,22 @@ impl<'a, 'b> Observer for Obs<'a, 'b> {
             Some(n) => *n,
             None => return true, // artificial blocks without node cannot occur in this profile
         };
+        let came_from_callind = std::mem::replace(&mut self.after_callind, false);
         if self.pi.get_node_value(node).is_none() {
-            self.failure = Some(("unreachable-block-reached".into(), format!("block {} has no analysis state (considered unreachable) but the concrete run reached it", blk.tid)));
+            if came_from_callind && self.last_callind_nontop == Some(true) {
+                self.failure = Some((
+                    "indirect-call-with-known-target-treated-as-not-returning".into(),
+                    format!("block {} is the return site of an indirect call whose target value is not Top for the analysis; the analysis has no state for it, the concrete run returned to it", blk.tid),
+                ));
+            } else {
+                self.failure = Some(("unreachable-block-reached".into(), format!("block {} has no analysis state (considered unreachable) but the concrete run reached it", blk.tid)));
+            }
             return false;
         }
+        // The analysis models an indirect call with a non-Top target as not returning (open finding): the concrete
+        // return is a flow the analysis deliberately ignores, so this arrival is judged under that finding's
+        // signature and the run ends here.
+        let off_model = came_from_callind && self.last_callind_nontop == Some(true);
         let rho = self.frames.last().expect("frame");
         for r in self.regs {
             if state.poison_vars.contains(&r.name) {
@@ -810,7 +834,7 @@ impl<'a, 'b> Observer for Obs<'a, 'b> {
             if !ok {
                 let place = if self.frames.len() > 1 { "in a callee" } else if self.after_call { "after a call" } else { "before any call" };
                 self.failure = Some((
-                    "register-value-not-represented".to_string(),
+                    if off_model { "indirect-call-with-known-target-treated-as-not-returning".to_string() } else { "register-value-not-represented".to_string() },
                     format!("({}) at block {} (function {}): register {} has concrete value {:#x} which is not represented by the analysis value {}", place, blk.tid, rho.sub_tid, r.name, v.v, d.to_json_compact()),
                 ));
                 return false;
@@ -824,7 +848,7 @@ impl<'a, 'b> Observer for Obs<'a, 'b> {
                 }
             }
         }
-        true
+        !off_model
     }
 
     fn at_access(&mut self, def: &Term<Def>, addr: u64, size: usize, _state: &State) {
@@ -855,6 +879,27 @@ impl<'a, 'b> Observer for Obs<'a, 'b> {
             Some((_, set)) => set.extend(bytes),
             None => frame.touched.push((ids, bytes.into_iter().collect())),
         }
+    }
+
+    fn at_call_ind(&mut self, call: &Term<Jmp>, target_value: u128, state: &mut State) -> CallAction {
+        // only a pointer-like target value can be the address of a function that returns; a call to a small
+        // constant, a NULL-range value or a data address of the global segment ends the run (it would crash)
+        let tv = target_value as u64;
+        if tv < (1 << 32) || tv > 0x7fff_ffff_ffff {
+            return CallAction::Stop;
+        }
+        // the called function is unknown: one behaviour that obeys the calling convention
+        let unk = ExternSymbol { tid: Tid::new("indirect"), addresses: vec![], name: "indirect".into(), calling_convention: None, parameters: vec![], return_values: vec![], no_return: false, has_var_args: false };
+        if let Jmp::CallInd { target, .. } = &call.term {
+            // does the analysis know "at least something" about the target? (it then treats the call as not returning)
+            self.last_callind_nontop = self.pi.eval_at_jmp(&call.tid, target).map(|d| !d.is_top());
+        }
+        self.extern_call(&unk, state);
+        // an unknown function returns something in the return register
+        state.set("RAX", crate::tape::mix64(self.seed ^ self.extern_calls) as u128, 8);
+        self.after_call = true;
+        self.after_callind = true;
+        CallAction::Handled
     }
 
     fn at_call(&mut self, _call: &Term<Jmp>, target: &Tid, state: &mut State) -> CallAction {
@@ -994,6 +1039,8 @@ pub fn check_case(case: &Case, ctx: &mut Ctx) -> CaseResult {
                 extern_writes: 0,
                 checks_after_call: 0,
                 after_call: false,
+                after_callind: false,
+                last_callind_nontop: None,
                 aliasing_frame: false,
             };
             let run = run_sub(s, &mut st, &regs, &Limits { max_events: 300, max_blocks: 80 }, &[], &mut obs);
@@ -1022,6 +1069,10 @@ pub fn check_case(case: &Case, ctx: &mut Ctx) -> CaseResult {
                 stats.6 = true;
             }
             if let Some((sig, detail)) = failure {
+                if sig.starts_with("indirect-call-") {
+                    // its own class, independent of the initial state
+                    return Err((sig, detail, false));
+                }
                 if frame_alias.get() {
                     // the callee's parameters aliased each other at run time; this cannot be undone by changing
                     // the initial state (the caller computes the pointers), so the failure is attributed to the
